@@ -74,7 +74,16 @@ func genC10(r *PRNG, tier string) *Scenario {
 	}
 	var ops []WOp
 	n := r.Range(1, 8)
+	badPM := -1
+	if class == "invalid-requests" && r.Chance(1, 3) {
+		// an oversized control message as a PreparedMessage: refused at creation or at every send, never half accepted
+		badPM = len(scn.Prepared)
+		scn.Prepared = append(scn.Prepared, Prepared{MT: r.Pick([]int{8, 9, 10}), Code: 1000, Pay: Payload{Len: r.Pick([]int{126, 200, 5000}), Seed: 6}})
+	}
 	for i := 0; i < n; i++ {
+		if badPM >= 0 && r.Chance(1, 2) {
+			ops = append(ops, WOp{Kind: "prep", PM: badPM})
+		}
 		op := genWriteOp(r, effW(end.WriteBuf), false, np)
 		if op.Pay.Len > 20000 {
 			op.Pay.Len = r.Range(0, 20000)
@@ -139,7 +148,7 @@ func invalidRequest(r *OpRec) bool {
 		return r.PayLen > 125
 	}
 	switch r.Op {
-	case "WriteMessage", "NextWriter", "Message", "WriteControl":
+	case "WriteMessage", "NextWriter", "Message", "WriteControl", "WritePreparedMessage":
 		return true // bad message type
 	}
 	return false
@@ -251,7 +260,7 @@ func oracleC10(run *Run) {
 			}
 			inv := invalidRequest(r)
 			switch r.Op {
-			case "WriteMessage", "WriteControl":
+			case "WriteMessage", "WriteControl", "WritePreparedMessage":
 				if inv && r.Err == "" {
 					run.fail("C10", "invalid-accepted", r.Op, "%s: %s accepted an invalid request (type %d, %d bytes)", who, r.Op, r.MsgType, r.PayLen)
 				}
